@@ -243,6 +243,11 @@ def _gen_set(g):
         X = X.astype(int)
     elif g.random() < 0.3:
         X = X * float(g.choice([1e-3, 1e3, 1e6])) + float(g.choice([0.0, -5.0, 7.0]))
+    if g.random() < 0.15:
+        # objectives of large magnitude with small differences (parameter counts, byte sizes, timestamps): exact in
+        # float64 / int64, not resolvable in a narrower float type
+        off = [10 ** 8, -(10 ** 8), 10 ** 10, 2 ** 40][int(g.integers(0, 4))]
+        X = X + (off if X.dtype.kind == "i" else float(off))
     X = X[g.permutation(n)]
     return X, kind
 
